@@ -236,10 +236,11 @@ def _decl_name_raw(d):
 
 
 def raw_find(f, names, skip_quant=False, prefixes=None):
-    """ExprRefs of all applications in f whose declaration name is in `names`."""
+    """ExprRefs of all applications in f (a formula, or a list of formulas traversed with one shared visited set) whose
+    declaration name is in `names` or starts with `prefixes`."""
     out = {}
     seen = set()
-    stack = [f.as_ast()]
+    stack = [x.as_ast() for x in f] if isinstance(f, (list, tuple)) else [f.as_ast()]
     lib, ctx = _lib, _ctx
     while stack:
         a = stack.pop()
@@ -347,19 +348,27 @@ def _pow2_apps(f):
 def pow2_axioms(terms) -> List[z3.BoolRef]:
     """Ground instances of the defining facts of pow2 for every application pow2(t) occurring in `terms`."""
     apps = {}
-    for t in terms:
-        for a in _pow2_apps(t):
-            apps[a.get_id()] = a
+    for e in raw_find(list(terms), ("pow2",)):
+        if e.num_args() == 1 and not _has_free_var(e.arg(0)):
+            apps[e.get_id()] = e
     out = []
     for app in apps.values():
-        a = app.arg(0)
-        out.append(z3.Implies(a >= 0, pow2(a) >= 1))
-        out.append(z3.Implies(a >= 1, pow2(a) == 2 * pow2(a - 1)))
-        out.append(z3.Implies(a >= 0, pow2(a + 1) == 2 * pow2(a)))
-        for i in range(0, 66):
-            out.append(z3.Implies(a == i, pow2(a) == 2 ** i))
+        k = app.get_id()
+        ent = _p2ax.get(k)
+        if ent is None:
+            a = app.arg(0)
+            ax = [z3.Implies(a >= 0, pow2(a) >= 1), z3.Implies(a >= 1, pow2(a) == 2 * pow2(a - 1)),
+                  z3.Implies(a >= 0, pow2(a + 1) == 2 * pow2(a))]
+            for i in range(0, 66):
+                ax.append(z3.Implies(a == i, pow2(a) == 2 ** i))
+            ent = (ax, app)        # the application is kept alive with its axioms (AST ids are recycled otherwise)
+            _p2ax[k] = ent
+        out += ent[0]
     out.append(pow2(z3.IntVal(0)) == 1)
     return out
+
+
+_p2ax = {}
 
 
 # ---------------------------------------------------------------- discharge
